@@ -107,6 +107,8 @@ def finish(prop, args, seed, t0, obligations, details, functions, assumptions, n
         elif st == 'undecided':
             undecided.append(oid)
     missing = sorted(o for o in ledger if o not in obligations)
+    live = {o.split('::', 1)[0] for o in obligations}
+    missing = [o for o in missing if o.split('::', 1)[0] not in live and not o.startswith('mps-copy:')]
     n = len(obligations)
     nd = sum(1 for st in obligations.values() if st in ('proved', 'known-finding'))
     wall = time.time() - t0
